@@ -190,7 +190,7 @@ FILE_TRUST = ["the container-reader model (AvroModel/File.lean) is hand-written 
 PROPS["C07"] = {
     "lean_modules": ["AvroModel.Props.C07"],
     "required_theorems": ["delivers", "callback_error", "callback_error_count", "sync", "crc", "inflate", "damaged_block", "snappy_short",
-                          "snappy_garbled", "magic", "no_schema", "bad_schema", "unknown_codec", "no_codec_means_null", "no_panic",
+                          "snappy_garbled", "magic", "no_schema", "bad_schema", "unknown_codec", "no_codec_means_null", "no_panic", "no_panic_partial",
                           "no_panic_full_false", "hugeLenFile_panics", "valid_mkHeader", "fuel_enough"],
     "harness": ["C07"],
     "level_text": "Proof over a model of ReadFile / readFileHeader / readBytes / FileHeader.schema / the three decompress methods (AvroModel/File.lean; "
